@@ -41,7 +41,7 @@ def pred_to_spec(txt):
     return out
 
 
-def extract_item(repo_rel, item_path, spec_lines, opts, unit):
+def extract_item(repo_rel, item_path, spec_lines, opts, unit, verus=True):
     p = os.path.join(vlib.REPO, repo_rel)
     try:
         src = open(p).read()
@@ -54,9 +54,9 @@ def extract_item(repo_rel, item_path, spec_lines, opts, unit):
     header = src[it.head_start:it.body_start].rstrip()
     body = src[it.body_start:it.end]
     dropped = src[it.start:it.head_start].strip()
-    # result binder
+    # result binder (Verus only)
     m = re.search(r"->\s*(.+)$", header, re.S)
-    if m and not m.group(1).lstrip().startswith("("):
+    if verus and m and not m.group(1).lstrip().startswith("("):
         ret = m.group(1).strip()
         where = ""
         wm = re.search(r"\bwhere\b", ret)
@@ -74,7 +74,7 @@ def extract_item(repo_rel, item_path, spec_lines, opts, unit):
     return text, dropped, it
 
 
-def build_file(unit, vspec):
+def build_file(unit, vspec, verus=True):
     tpl = open(os.path.join(unit.dir, vspec["file"])).read()
     lines = tpl.split("\n")
     out = []
@@ -99,7 +99,7 @@ def build_file(unit, vspec):
                 spec_lines.append(sm.group(1))
                 i += 1
             i += 1
-            text, dropped, it = extract_item(m.group(1), m.group(2), spec_lines, opts, unit)
+            text, dropped, it = extract_item(m.group(1), m.group(2), spec_lines, opts, unit, verus)
             extracted.append(dict(item=m.group(2), file=m.group(1), dropped=dropped, fn=opts.get("rename", it.name)))
             out.append("// ---- extracted verbatim from %s :: %s (header binder + spec lines added) ----" % (m.group(1), m.group(2)))
             out.append(text)
